@@ -96,12 +96,16 @@ impl BumpAllocator {
             let current = self.current.load(Ordering::Acquire);
 
             // Calculate aligned offset
-            let aligned_offset = (current + align - 1) & !(align - 1);
-            let new_offset = aligned_offset + size;
-
-            if new_offset > self.capacity {
-                return Err(ZiporaError::out_of_memory(size));
-            }
+            // Checked arithmetic: a huge `size` must be refused, not wrap around to a
+            // small offset that passes the capacity check
+            let new_offset = current
+                .checked_add(align - 1)
+                .map(|v| v & !(align - 1))
+                .and_then(|aligned| aligned.checked_add(size));
+            let (aligned_offset, new_offset) = match new_offset {
+                Some(end) if end <= self.capacity => (end - size, end),
+                _ => return Err(ZiporaError::out_of_memory(size)),
+            };
 
             // Try to atomically update the current offset
             match self.current.compare_exchange_weak(
